@@ -1256,7 +1256,16 @@ def _layer_plottable(ctx, rule: str) -> List[Ob]:
     return [Ob(rule, o.title, o.status, o.where, o.detail, o.key, o.construct, o.extra) for o in obs]
 
 
+def _layer_discrete_defs(ctx, rule: str, kinds=('sync', 'order', 'dir')) -> List[Ob]:
+    obs = ctx.get(('chain-discrete', kinds), lambda c: _discrete_rules(c, kinds))
+    return [Ob(rule, o.title, o.status, o.where, o.detail, o.key, o.construct, o.extra) for o in obs
+            if o.rule in ('R03.3', 'R04.2', 'R03.6')]
+
+
 _CHAIN_TXT = {
+    'discrete_defs': ("{rid} (=R03.3/R04.2/R03.6) the discrete profile kernels store exactly the documented marks and multiplicities, "
+                      "frame them with copies of the first / last event (value and multiplicity together) and return every recorded "
+                      "event."),
     'typestates': ("{rid} (=R15.1/R16.2/R18.4/R05.7) what reaches a kernel call from these entry points: MRTS already resolved to one "
                    "number for the whole call (never the string, never re-resolved per pair), max_tau defaulted, spike arrays taken "
                    "from the reconciled trains."),
@@ -1310,15 +1319,20 @@ _CHAINS = {
             ('R06.12', 'class_ops', lambda c: _layer_class_ops(c, 'R06.12')),
             ('R06.13', 'reconcile', lambda c: _layer_reconcile(c, (_ISI, _SPK, _SYN), 'R06.13'))],
     'C07': [('R07.10', 'avrg', lambda c: _class_averages(c, 'R07.10')),
-            ('R07.11', 'reconcile', lambda c: _layer_reconcile(c, (_ISI, _SPK, _SYN, _DIR), 'R07.11'))],
-    'C15': [('R15.8', 'reconcile', lambda c: _layer_reconcile(c, (_ISI, _SPK, _SYN, _DIR), 'R15.8'))],
+            ('R07.11', 'reconcile', lambda c: _layer_reconcile(c, (_ISI, _SPK, _SYN, _DIR), 'R07.11')),
+            ('R07.12', 'discrete_defs', lambda c: _layer_discrete_defs(c, 'R07.12'))],
+    'C15': [('R15.8', 'reconcile', lambda c: _layer_reconcile(c, (_ISI, _SPK, _SYN, _DIR), 'R15.8')),
+            ('R15.9', 'plumbing', lambda c: _plumbing(c, (_ISI, _SPK, _SYN, _DIR), 'R15.9'))],
     'C08': [('R08.7', 'isi_lengths', lambda c: [Ob('R08.7', o.title, o.status, o.where, o.detail, o.key, o.construct, o.extra)
                                                  for o in RM.r15_4_threshold_definition(c, 'R15.4', 'R08.2') if o.rule == 'R15.4']),
             ('R08.8', 'aux', lambda c: _nonempty_aux(c, 'R08.8')),
             ('R08.10', 'reconcile', lambda c: _layer_reconcile(c, (_ISI, _SPK, _SYN, _DIR), 'R08.10')),
-            ('R08.11', 'plottable', lambda c: _layer_plottable(c, 'R08.11'))],
+            ('R08.11', 'plottable', lambda c: _layer_plottable(c, 'R08.11')),
+            ('R08.12', 'discrete_defs', lambda c: _layer_discrete_defs(c, 'R08.12'))],
     'C10': [('R10.7', 'ownership', lambda c: r09_2_ownership(c, 'R10.7', {'PieceWiseConstFunc', 'PieceWiseLinFunc'}))],
-    'C12': [('R12.8', 'avrg', lambda c: _class_averages(c, 'R12.8'))],
+    'C12': [('R12.8', 'avrg', lambda c: _class_averages(c, 'R12.8')),
+            ('R12.9', 'plumbing', lambda c: _plumbing(c, (_ISI, _SPK, _SYN, _DIR), 'R12.9')),
+            ('R12.10', 'typestates', lambda c: _layer_typestates(c, (_ISI, _SPK, _SYN, _DIR), 'R12.10'))],
     'C14': [('R14.8', 'defaults', lambda c: _layer_defaults(c, 'R14.8')),
             ('R14.9', 'reconcile', lambda c: _layer_reconcile(c, (_ISI, _SPK, _SYN, _DIR), 'R14.9')),
             ('R14.10', 'typestates', lambda c: _layer_typestates(c, (_ISI, _SPK, _SYN, _DIR), 'R14.10'))],
